@@ -288,7 +288,6 @@ func ruleC13Tables(cx *Ctx) {
 	}
 }
 
-
 // usedAsDivisor: every use of the element loaded from this address is as the divisor of a division.
 func usedAsDivisor(ia *ssa.IndexAddr) bool {
 	n := 0
